@@ -397,6 +397,7 @@ impl BuildJob<'_> {
             let _lock = lock; // ensure we hold the lock until after state has been recorded
             let mut rv = job.await;
             vemit!("JobDone", "t": sf.name().as_str(), "fid": sf.id(), "rv": rv);
+            vgate!("job_done", "t": sf.name().as_str());
             let mut ps = ps_ref.borrow_mut();
             let mut ptx = match ProcessTransaction::new(*ps, TransactionBehavior::Immediate) {
                 Ok(ptx) => ptx,
